@@ -96,6 +96,46 @@ def generator_invalid(s: sg.Schema) -> Optional[str]:
     return None
 
 
+def conv_type_outside_imports(s: sg.Schema) -> Optional[str]:
+    """Class of the finding `go-missing-import`: some message field's accessor conversion type
+    (the innermost named single type reached through aliases and arrays, see
+    BlockMessageMethodBpSetByteItem) is defined in a proto file that the message's file does
+    not import directly.  Returns a description or None."""
+    seen = set()
+
+    def walk_msg(m: sg.T) -> Optional[str]:
+        if id(m) in seen:
+            return None
+        seen.add(id(m))
+        vis = {m.file} | {fi for fi, _ in s.files[m.file].imports}
+        for num, name, ft in m.fields:
+            t, conv = ft, None
+            while True:
+                if t.kind == "alias":
+                    if t.t.kind == "arr":
+                        t = t.t
+                        continue
+                    conv = t
+                    break
+                if t.kind == "arr":
+                    t = t.t
+                    continue
+                break
+            if conv is None and t.kind == "enum":
+                conv = t
+            if conv is not None and conv.file not in vis:
+                return (f"message {m.name} (file {s.files[m.file].base}) field {name}: conversion type {conv.name} is "
+                        f"defined in {s.files[conv.file].base}, which that file does not import")
+            inner = _strip(ft)
+            if inner.kind == "msg":
+                r = walk_msg(inner)
+                if r:
+                    return r
+        return None
+
+    return walk_msg(s.top) if len(s.files) > 2 else None
+
+
 class Shards(pyside.Shards):
     """pyside.Shards with a serial retry of a shard whose coqc run failed (time-out on a loaded
     machine); a shard that fails twice is a broken obligation, the other shards still count."""
@@ -160,6 +200,13 @@ def run(ck: Check) -> None:
         s = sg.schema_from_json(j["schema"])
         vals = [sg.value_from_json(s.top, v) for v in j.get("values", [])]
         cases.append((s, vals, "corpus:" + os.path.basename(j["_path"])))
+    for kf in ck.known:
+        wp = os.path.join(pywire.VERIF, "corpus", ck.prop, "known", kf.get("key", "") + ".json")
+        if os.path.exists(wp):
+            j = json.load(open(wp))
+            s = sg.schema_from_json(j["schema"])
+            cases.append((s, [sg.value_from_json(s.top, v) for v in j.get("values", [])],
+                          "known-finding-witness:" + kf["key"]))
     n_corpus = len(cases)
     n_invalid = 0
     for c in pywire.gen_cases(ck, ns, nv):
@@ -189,6 +236,19 @@ def run(ck: Check) -> None:
         try:
             g1 = t1_go.GoT1(r["go"])
             gterm, info = g1.message(g1.files[base], go_msg_name(g1, base, s.top, top_name))
+        except t1_go.T1Unresolved as e:
+            cls = conv_type_outside_imports(s)
+            if cls is None and origin == "known-finding-witness:go-missing-import":
+                cls = "committed witness of the finding"
+            if cls is None:
+                t1_fail[i] = f"emitted Go: {e}"
+            else:
+                ck.violation(f"emitted Go refers to a package its file does not import (Go: undefined: "
+                             f"{e.expr.split('.')[0]}): {e}; {cls}",
+                             {"schema": sg.schema_to_json(s), "origin": origin, "unresolved": e.expr,
+                              "file": e.file + ".go", "class": cls, "go": excerpt(r["go"])},
+                             found_input=True, key="go-missing-import")
+            continue
         except (t1_go.T1Error, KeyError, IndexError, StopIteration) as e:
             t1_fail[i] = f"emitted Go: {type(e).__name__}: {e}"
             continue
